@@ -328,6 +328,23 @@ def shard_random(n, sd):
     return stats
 
 
+SWEEP_CONTRACT = ["tag 1 JUMPDEST PUSH 1 PUSH 2 ADD PUSH 0 MSTORE PUSH 20 PUSH 0 KECCAK256 DUP1 SLOAD PUSH 1 ADD SWAP1 SSTORE STOP",
+                  "tag 2 JUMPDEST DUP2 DUP2 ADD PUSH 0 ADD DUP1 PUSH 40 MSTORE PUSH 40 MLOAD SWAP2 POP POP PUSH 0 PUSH 20 LOG0 PUSH 1 PUSH 1 SUB POP STOP",
+                  "tag 3 JUMPDEST CALLER PUSH 0 DUP2 SWAP1 POP AND PUSH 5 SSTORE STOP"]
+
+
+def shard_fault_sweep(jobs, sd):
+    """every fault site x call number on one fixed contract whose middle block exercises the analysis, the search, the
+    re-verification and the rebuild (split at LOG0, rules, memory operations)"""
+    hermetic.setup_repo()
+    stats = runner.Stats()
+    blocks = [asm.parse_plain(t) for t in SWEEP_CONTRACT]
+    for site, nth, argv in jobs:
+        for f in check_document(blocks, argv, stats, "fault-sweep", with_fault=[1, site, nth]):
+            stats.fail(f)
+    return stats
+
+
 def shard_templates(temps, sd):
     hermetic.setup_repo()
     stats = runner.Stats()
@@ -393,6 +410,10 @@ def main(tier, seed_):
     per = max(1, n // runner.NPROC)
     jobs = [(shard_random, (per, runner.shard_seed(seed_, i, "c10"))) for i in range(runner.NPROC)]
     jobs += [(shard_templates, (ch, runner.shard_seed(seed_, i, "c10t"))) for i, ch in enumerate(runner.chunks(temps, runner.NPROC))]
+    sweep = [(site, nth, argv) for site in range(len(FAULT_SITES)) for nth in ((1, 2) if tier == "quick" else (1, 2, 3, 5, 9))
+             for argv in ((["-greedy"],) if tier == "quick" else (["-greedy"], ["-storage", "-greedy"], ["-partition", "-size", "-greedy"]))]
+    jobs += [(shard_fault_sweep, (ch, runner.shard_seed(seed_, i, "c10f"))) for i, ch in enumerate(runner.chunks(sweep, runner.NPROC)) if ch]
+
     def on_suspect(case, why):
         # a shard hung or died: the journalled contract is re-run alone under hard limits
         st2 = runner.Stats()
